@@ -18,7 +18,7 @@ from .. import common, gen, spans_corr as sc
 from ..common import Result, Violation
 
 META = dict(
-    level='Lean theorems over the run-length accumulator model of SpansBySamples.first_pass (any additive commutative group; every list of local-tree records; every flush-set choice containing the nodes whose (presence, T, k) changes): bucket (u,T,k) = total length of trees with T samples where u has k descendant samples; node_spans[u] = length where u is present; buckets sum to node_spans; mixture_expect_and_var returns mean = sum(w m)/sum(w) and var = sum(w (v+m^2))/sum(w) - mean^2 = law-of-total-variance form, non-negative. PARTIAL: that the code edge-diff bookkeeping (changed / disappearing / unary-descendant nodes, running sample count) always yields an adequate flush set is NOT proved; it is tied by I/O correspondence on generated inputs (polytomies, missing samples, gaps) and by evaluating the adequacy hypothesis on the flush sets the real code is observed to use. Unary-node paths (second/third pass) are outside.',
+    level='Lean theorems over the run-length accumulator model of SpansBySamples.first_pass (any additive commutative group; every list of local-tree records; every flush-set choice containing the nodes whose (presence, T, k) changes): bucket (u,T,k) = total length of trees with T samples where u has k descendant samples; node_spans[u] = length where u is present; buckets sum to node_spans. The flush RULE of first_pass (walk up the previous tree from every node whose parent changes and from the new parents; everything when the sample total changes) is proved to cover every node whose record changes (trees as parent functions, path argument), so flush sets containing the executable rule set satisfy the hypothesis. mixture_expect_and_var returns mean = sum(w m)/sum(w) and var = sum(w (v+m^2))/sum(w) - mean^2 = law-of-total-variance form, non-negative. PARTIAL: that the code bookkeeping (num_children counters, disappearing_nodes, visited_nodes, running sample count, num_tracked_samples) implements that rule and those counts is NOT proved; it is tied by I/O correspondence on generated inputs (polytomies, missing samples, gaps) and by comparing, per input, the flush sets the real code is observed to use with the rule run on the real trees. Unary-node paths (second/third pass) are outside.',
     note='Lean kernel + {propext, Classical.choice, Quot.sound}; per-tree records extracted with tskit (trusted); sampled correspondence; flush sets observed via sys.setprofile',
     technique='refinement proof of a run-length accumulator against a per-tree tally, parametric in the flush sets + model/implementation correspondence with observed flush sets',
     ref='§3 C15',
@@ -27,7 +27,7 @@ LEAN_PROPS = ["TsdateVerif.Props.C15"]
 LEAN_BUILD = ["TsdateVerif.Model.Proto", "TsdateVerif.Model.Spans"]
 ASSUMPTIONS = [
     "tskit tree iteration, num_samples, edge_diffs are taken by contract; records (T, k per node) are extracted with tskit",
-    "adequacy of the code's flush sets is checked per generated input, not proved",
+    "that first_pass visits at least the nodes named by the (proved adequate) flush rule is checked per generated input, not proved",
     "inputs: simplified, all samples at time 0, one root per tree, no unary nodes (others are rejected by the code; rejections are counted)",
 ]
 
@@ -61,6 +61,11 @@ def prepare(ctx, ts, info, idx, rng, stats):
     stats["extra_flushed"] += sum(len(set(a) - set(b)) for a, b in zip(cf, mf))
     stats["min_flushed"] += sum(len(b) for b in mf)
     blocks = [sc.spans_block(f"s{idx}_{name}", ts.num_nodes, recs, fl) for name, fl in case["flush"].items()]
+    # the flush rule (Props/C15 flush_rule_covers_changes / rule_flush_complete) run on the real trees
+    case["observed_all"] = sc.code_flush_all(calls, ts)
+    case["rank_ok"] = bool(np.all(ts.nodes_time[ts.edges_parent] > ts.nodes_time[ts.edges_child]))
+    if ts.num_trees > 1:
+        blocks.append(sc.rule_block(f"f{idx}", ts, sc.parent_arrays(ts)))
     # mixture: for every node the (w, m, v) components, weights from the implementation's spans
     mix = {}
     for distr in ("gamma", "lognorm"):
@@ -102,6 +107,23 @@ def evaluate(ctx, case, out, res, stats):
         res.corr_failures.append(Violation("code-flush-set-not-adequate",
                                            "the flush sets used by first_pass miss a node whose (presence, T, k) changes: "
                                            "hypothesis of accumulate_eq_tally not met", replay, stage="B"))
+    # ---- the observed flush sets contain the proved-adequate rule's set (and usually equal it)
+    stats["rank_ok"] += int(case["rank_ok"])
+    if ts.num_trees > 1:
+        t = out.get(f"f{idx}")
+        rule = None if t is None else sc.parse_rule(t)
+        obs = case["observed_all"]
+        if rule is None or len(rule) != len(obs):
+            res.corr_failures.append(Violation("flush-rule-bad-op", "flush-rule model rejected the input", replay, stage="B"))
+        else:
+            missing = [(i, sorted(r - o)) for i, (r, o) in enumerate(zip(rule, obs)) if not r <= o]
+            stats["rule_transitions"] += len(rule)
+            stats["rule_equal"] += sum(int(r == o) for r, o in zip(rule, obs))
+            if missing:
+                res.corr_failures.append(Violation("code-flush-set-misses-rule",
+                                                   f"first_pass does not flush node(s) {missing[0][1]} at transition {missing[0][0]} "
+                                                   "although the flush rule (walk up the previous tree from the changed nodes) names them",
+                                                   replay, stage="B"))
     # ---- B: model under three flush choices vs implementation
     impl = case["impl"]
     for name in case["flush"]:
@@ -178,7 +200,7 @@ def evaluate(ctx, case, out, res, stats):
 
 def new_stats():
     return dict(rejected={}, fired={}, trees=[], zero_entries=0, extra_flushed=0, min_flushed=0, adequate_code=0,
-                mixture_nodes=0, single_nodes=0, mix_calls=0)
+                mixture_nodes=0, single_nodes=0, mix_calls=0, rank_ok=0, rule_transitions=0, rule_equal=0)
 
 
 def run_cases(ctx, n_cases, stream, res, stats, nmax=9):
@@ -198,7 +220,9 @@ def run_cases(ctx, n_cases, stream, res, stats, nmax=9):
 def finish(res, stats, n_ok):
     tr = stats.pop("trees")
     stats["tree_count_hist"] = {str(k): int(v) for k, v in zip(*np.unique(tr, return_counts=True))} if tr else {}
-    stats["hypotheses"] = dict(adequate_on_code_flush_sets=f"{stats['adequate_code']}/{n_ok}", first_left_zero=f"{n_ok}/{n_ok}")
+    stats["hypotheses"] = dict(adequate_on_code_flush_sets=f"{stats['adequate_code']}/{n_ok}", first_left_zero=f"{n_ok}/{n_ok}",
+                               parents_older_rank=f"{stats['rank_ok']}/{n_ok}",
+                               observed_flush_equals_rule=f"{stats['rule_equal']}/{stats['rule_transitions']}")
     res.extra = dict(input_distribution=stats)
 
 
